@@ -116,6 +116,50 @@ theorem decode_returns (h s : List Char) (v : Nat) (p : List Nat) :
 theorem decode_accepts_iff (h s : List Char) : Model.Bech32.decode h s ≠ none ↔ ValidSegwit h s :=
   decode_ne_none_iff h s
 
+/-! ### the expected prefix is the whole prefix (round-9 seed C11r9) -/
+
+/-- list fact: the separator is determined when neither data part contains it -/
+theorem sep_unique : ∀ (h h' d d' : List Char), '1' ∉ d → '1' ∉ d' →
+    h ++ '1' :: d = h' ++ '1' :: d' → h = h'
+  | [], [], _, _, _, _, _ => rfl
+  | [], c :: t, d, d', hd, _, he => by
+      simp only [List.nil_append, List.cons_append, List.cons.injEq] at he
+      exact absurd (by rw [he.2]; simp) hd
+  | c :: t, [], d, d', _, hd', he => by
+      simp only [List.nil_append, List.cons_append, List.cons.injEq] at he
+      exact absurd (by rw [← he.2]; simp) hd'
+  | c :: t, c' :: t', d, d', hd, hd', he => by
+      simp only [List.cons_append, List.cons.injEq] at he
+      rw [he.1, sep_unique t t' d d' hd hd' he.2]
+
+/-- a string is a valid address for AT MOST ONE expected prefix: the prefix is everything before the last
+    '1', so a string valid for "bc1x" is not valid for "bc" (nor for any other proper prefix, extension or
+    variant) -/
+theorem prefix_unique (h h' s : List Char) (v v' : Nat) (p p' : List Nat)
+    (a : Decodes h s v p) (b : Decodes h' s v' p') : h = h' := by
+  obtain ⟨_, _, _, _, rest, ck, dchars, _, hdc, hs, _⟩ := a
+  obtain ⟨_, _, _, _, rest', ck', dchars', _, hdc', hs', _⟩ := b
+  have f := Bech32.dataChars_facts _ _ hdc
+  have f' := Bech32.dataChars_facts _ _ hdc'
+  have h1 : '1' ∉ dchars := fun hm => (f.2.2 _ hm).2.2.2 rfl
+  have h1' : '1' ∉ dchars' := fun hm => (f'.2.2 _ hm).2.2.2 rfl
+  exact sep_unique h h' dchars dchars' h1 h1' (hs.symm.trans hs')
+
+/-- … for the decoder: accepted under two expected prefixes only if they are the same prefix -/
+theorem decode_prefix_unique (h h' s : List Char)
+    (a : Model.Bech32.decode h s ≠ none) (b : Model.Bech32.decode h' s ≠ none) : h = h' := by
+  obtain ⟨v, p, d⟩ := (decode_accepts_iff h s).1 a
+  obtain ⟨v', p', d'⟩ := (decode_accepts_iff h' s).1 b
+  exact prefix_unique h h' s v v' p p' d d'
+
+/-- in particular whatever is valid for `base ++ "1" ++ extra` is refused under `base` -/
+theorem decode_rejects_shorter_prefix (base extra s : List Char)
+    (a : Model.Bech32.decode (base ++ '1' :: extra) s ≠ none) : Model.Bech32.decode base s = none := by
+  by_contra hne
+  have := decode_prefix_unique _ _ s a hne
+  have hl := congrArg List.length this
+  simp at hl
+
 /-- every mixed-case rendering is rejected -/
 theorem mixed_case_rejected (h s : List Char) (hl : ∃ c ∈ s, c.isLower = true)
     (hu : ∃ c ∈ s, c.isUpper = true) : Model.Bech32.decode h s = none := by
